@@ -65,6 +65,8 @@ class RunnerBasics(Harness):
             {"M": 1, "A": 1, "H": 0, "S": 3, "acts": L, "pre": 0, "cap": 1, "script": "cancel-again", "cancel_objects": "reused"},
             # two markets, agents free to hit them in any order (records must keep the global event order)
             {"M": 2, "A": 2, "H": 0, "S": 1, "acts": L, "pre": 0, "cap": 2, "script": "two-markets"},
+            # the same after a step without execution (books of both markets may be crossed when execution starts)
+            {"M": 2, "A": 2, "H": 0, "S": 1, "acts": L, "pre": 1, "cap": 2, "script": "two-markets-pre"},
             # a crossed book left by a no-execution step is cleared by the round a third agent's order starts
             {"M": 1, "A": 3, "H": 0, "S": 1, "acts": L, "pre": 1, "cap": 3, "script": "bystander"},
             # a trading halt fired by a fill, orders accepted during the halt, resumption: 3 agents, 4 steps
@@ -136,6 +138,9 @@ class RunnerBasics(Harness):
         elif sc == "late":     # a buyer and a seller quote one unit at t=0 (no execution), may cancel or quote again at t=1
             menu = {"vol_fixed": 1, "price_hi": 1000, "per_agent": {"0": {"side": "B"}, "1": {"side": "S"}},
                     "acts_by_time": {"0": ["limit"], "1": ["none", "limit", "cancel"]}}
+        elif sc == "two-markets-pre":
+            menu = {"vol_fixed": 1, "price_hi": 1000, "per_agent": {"0": {"side": "B"}, "1": {"side": "S"}},
+                    "acts_by_time": {"0": ["limit"], "1": ["none", "limit"]}}
         elif sc == "two-markets":
             menu = {"vol_fixed": 1, "max_orders": 2, "acts": ["none", "limit"],
                     "per_agent": {"0": {"side": "B"}, "1": {"side": "S"}}}
